@@ -24,7 +24,7 @@ MIN_NONTRIVIAL = {"quick": 3000, "thorough": 30000}
 REQUIRED_FUNCTIONS = ["error.py:BlackbirdErrorListener.syntaxError", "listener.py:parse"]
 FUNCTIONS = REQUIRED_FUNCTIONS
 REQUIRED_HOOKS = ["syntaxError"]
-REQUIRED_TAGS = ["mut:delete", "mut:substitute", "mut:insert", "mut:swap", "mut:truncate", "soup:tokens", "soup:chars", "via:load", "grammatical", "ungrammatical"]
+REQUIRED_TAGS = ["mut:delete", "mut:substitute", "mut:insert", "mut:swap", "mut:truncate", "soup:tokens", "soup:chars", "via:load", "grammatical", "ungrammatical", "probe:viable-continuation"]
 ASSUMPTIONS = ["'sentence of the grammar' and 'first token that makes the text ungrammatical' are decided by bbverif/g4ref.py from src/blackbird.g4 as it is now",
                "files for load() are ASCII (antlr4.FileStream default); loads() is fed arbitrary Unicode"]
 
@@ -304,6 +304,24 @@ def run(ctx):
         for (kind, t) in mutants(rng, g, base, toks, samples, 6):
             check_text(ctx, t, tags=[kind], base=base, via_load=rng.random() < 0.1 and t.isascii())
             done += 1
+        if rng.random() < 0.25:
+            # viable-continuation probes: after a prefix of a sentence, every token type the grammar allows next; the
+            # parser must not report an error at that token (it is not the first token that makes the text ungrammatical)
+            ok_b, _, _ = g.is_sentence(base)
+            if ok_b and len(toks) > 3:
+                k = rng.randrange(2, len(toks))
+                prefix_types = [t.type for t in toks[:k]]
+                prefix_text = base[: toks[k].pos]
+                for nm in g.token_names:
+                    if nm in ("SPACE", "COMMENT", "ANY"):
+                        continue
+                    acc, bad = g.recognize(prefix_types + [nm])
+                    if bad is not None and bad <= k:
+                        continue        # not a viable continuation
+                    w = STR_SAMPLES[1] if nm == "STR" else samples[nm]
+                    sep = "" if prefix_text.endswith(("\n", " ", "\t")) or nm in ("NEWLINE",) else " "
+                    check_text(ctx, prefix_text + sep + w, tags=["probe:viable-continuation"], base=base)
+                    done += 1
     undo()
 
 
